@@ -1,12 +1,65 @@
 """C03: every specification-conformant schema is accepted.
-The Coq model's `conforms` is the executable specification; every scenario it accepts must be accepted by the
-implementation, whatever the rendering (spelling, order, descriptive properties) and feature mix."""
-import scen_check
+Theorems: Properties/C03_spec.v (the model's verdict `conforms` is equivalent to the purely declarative specification
+`Conforms` of Spec/Conforms.v: C03_sound, C03_complete, C03_iff) and Properties/C03.v (conforms is the conjunction of its
+rules; the known finding only widens acceptance).  The statement 'conformant => accepted by the implementation' is carried
+by the correspondence: everything the executable specification accepts -- plain, threaded, with pipelines, with imports,
+and the systematic families -- must be accepted by the implementation under every rendering."""
+import random, json, collections
+import common, kernel, engine, families, scenario as S
+import pipes, imports as I
+
 LEVEL = "proof"
 
 
 def run(ctx):
-    scen_check.scenario_check(
-        ctx, owners=(), n_valid=240, n_mut=0, sizes=[3, 5, 6, 8, 10, 12, 14],
-        rule="conformant-by-construction scenarios of 3-14 actions (plus threaded actions), half with thread groups, each rendered twice (id / alias / mixed spelling, shuffled arrays and key order, optional descriptive properties); a case is non-trivial when it has at least one checkpoint; distinct by abstract scenario",
-        trusted=["Properties/C03.v: conforms is the conjunction of the per-property rules proved sound in C01, C02, C04-C07, C10 (the statement 'conformant => accepted' is about the implementation and is carried by the correspondence)"])
+    ok, thms, log = kernel.proof_step(ctx, regen=("tables",))
+    lock = ctx.coq_lock()
+    try:
+        ok2, log2 = ctx.make(["theories/Properties/C03_spec.vo"])
+    finally:
+        lock.close()
+    ctx.coverage["obligation_names"] = ctx.coverage.get("obligation_names", []) + ["OIS.Properties.C03_spec.C03_sound", "OIS.Properties.C03_spec.C03_complete", "OIS.Properties.C03_spec.C03_iff"]
+    if ok2:
+        ctx.coverage["obligations"] += 3
+        ctx.coverage["discharged"] = ctx.coverage.get("discharged", 0) + 3 if ok else 0
+    else:
+        ok, log = False, log + log2
+    rng = random.Random(ctx.seed)
+    scale = 1 if ctx.tier == "quick" else 10
+    sizes = [3, 5, 6, 8, 10, 12, 14]
+    # (a) plain and threaded scenarios + the guaranteed-ancestry family
+    items = engine.make_valid_items(ctx, rng, 90 * scale, variants=2, threads=False, sizes=sizes)
+    items += engine.make_valid_items(ctx, rng, 90 * scale, variants=2, threads=True, sizes=sizes)
+    items += families.guaranteed_family(rng)
+    ev1 = engine.run_items(ctx, items)
+    # (b) scenarios with aggregation pipelines
+    pitems = []
+    for k in range(60 * scale):
+        s, b = pipes.gen_valid_p(rng, threads=(k % 2 == 1))
+        g = engine.scen_hash(s)
+        for v in range(2):
+            r = {"spelling": ["mixed", "alias"][v], "shuffle": v == 1, "descriptive": v == 1, "seed": rng.randrange(1 << 30)}
+            pitems.append(engine.Item(s, S.render(s, random.Random(r["seed"]), r["spelling"], r["shuffle"], r["descriptive"]), "valid-pipelines", render=r, group=g))
+    ev2 = engine.run_items(ctx, pitems, coq_file_fn=pipes.coq_cases_file_p)
+    # (c) importing scenarios
+    iitems = []
+    for k in range(40 * scale):
+        case = I.gen_valid_i(rng, threads=(k % 3 == 0))
+        r = {"spelling": "mixed", "shuffle": k % 2 == 1, "seed": rng.randrange(1 << 30)}
+        doc = I.render_i(case, ctx.repo_copy, random.Random(r["seed"]), r["spelling"], r["shuffle"], False)
+        iitems.append(engine.Item(case, doc, "valid-imports", render=r, group="i%d" % k))
+    ev3 = engine.run_items(ctx, iitems, coq_file_fn=I.coq_cases_file_i)
+    for it in iitems:
+        it.scenario = {"native": it.scenario["native"], "imports": [{k: v for k, v in imp.items() if k != "builder"} for imp in it.scenario["imports"]]}
+    allitems = items + pitems + iitems
+    engine.report(ctx, allitems, "T3 correspondence: a scenario the executable specification accepts is not accepted by the implementation (or vice versa)")
+    ctx.coverage.update({
+        "rule": "conformant-by-construction scenarios of 3-14 actions (plus threaded actions; thread forests to depth 3), each rendered twice (id / alias / mixed spelling, numeric aliases, shuffled arrays and key order, descriptive properties); the guaranteed-ancestry family (5 gates x 4 x 4 branch shapes); scenarios with 0-2 aggregation pipelines; importing scenarios with generated import files; non-trivial = at least one checkpoint; distinct by abstract scenario",
+        "samples": engine.sample_of(items[:1] + pitems[:1] + iitems[:1]),
+        "accepted_by_both": sum(1 for it in allitems if it.res["outcome"] == "accept" and it.model_accepts),
+        "trusted_base": ["scenario / pipeline / import generators and renderers (harness/scenario.py, pipes.py, imports.py)",
+                         "Spec/Conforms.v is the declarative reading of the published specification; its equivalence with the executable model is proved, its agreement with the implementation is tested"]})
+    if not (ev1 and ev2 and ev3) and not ctx.violations:
+        kernel.obligation_violation(ctx, thms, "; ".join(ctx.notes[-3:]), {"correspondence": "Coq evaluation of scenario cases failed"})
+    if not ok and not ctx.violations:
+        kernel.obligation_violation(ctx, thms, log)
